@@ -103,8 +103,8 @@ func c04Check(t *fw.T, prog *gen.JSProg, st gen.JSStyle, op js.Options) bool {
 			}
 			break
 		}
-		if tt == js.IdentifierToken {
-			out = append(out, string(data))
+		if js.IsIdentifier(tt) {
+			out = append(out, string(data)) // also async, get, set, of, let, static, target …: they may be variable names
 		}
 	}
 	// expected sequence: a shorthand occurrence of a renamed binding is printed as key and value
@@ -190,7 +190,7 @@ func c04Check(t *fw.T, prog *gen.JSProg, st gen.JSStyle, op js.Options) bool {
 	return true
 }
 
-var c04Opts = gen.JSOpts{NoRegex: true, PlainKeys: true, NoClassSelf: true, NoModuleItems: true, ParamDefaultRefs: true}
+var c04Opts = gen.JSOpts{NoRegex: true, PlainKeys: true, NoClassSelf: true, NoModuleItems: true, ParamDefaultRefs: true, CtxNames: true}
 
 func c04Run(t *fw.T) {
 	r := t.Rng
@@ -201,7 +201,7 @@ func c04Run(t *fw.T) {
 		o.MaxStmts = 1 + r.Intn(3)
 	}
 	prog := gen.JSProgram(r, o)
-	st := gen.JSStyle{Parens: r.Intn(3), Semi: r.Intn(3), WS: r.Intn(3), Seed: r.Int63(), Bang: []int{0, 0, 0, 25}[r.Intn(4)]}
+	st := gen.JSStyle{Parens: r.Intn(3), Semi: r.Intn(3), WS: r.Intn(3), Seed: r.Int63(), Bang: []int{0, 0, 0, 25}[r.Intn(4)], KwOcc: true}
 	op := jsOptions[r.Intn(2)]
 	if !c04Check(t, prog, st, op) {
 		return
